@@ -75,15 +75,70 @@ def snap(obj, fake):
 
 
 def build(cls):
-    tls = cls.endswith("Tls")
+    tls = "Tls" in cls
     if cls.startswith("Client"):
-        return client_on_double(tls=tls)
+        # "...Reconnectable": the documented `reconnectable=True` option (the client may be connected again later)
+        return client_on_double(tls=tls, **({"reconnectable": True} if cls.endswith("Reconnectable") else {}))
     return incomer_on_double(tls=tls)
+
+
+def after_cutoff_case(ctx, cls, how, op, cat, item):
+    """the same classification on a connection that is already marked cut off (by an earlier loss error or by the far
+    side's orderly close): a later operation that fails with another error still propagates it"""
+    tls = "Tls" in cls
+    obj, fake = build(cls)
+    name = item_name(item)
+    row = {"class": cls, "cut_off_by": how, "operation": op, "error": name, "category": cat}
+    ctx.case((cls, "after-cutoff", how, op, name), nontrivial=True)
+    try:
+        if how == "recv-loss":
+            fake.script("recv", [ERR(errno.ECONNRESET)])
+            obj.receive()
+        elif how == "recv-eof":
+            fake.script("recv", [DATA(b"")])
+            obj.receive()
+        else:
+            fake.script("send", [ERR(errno.ETIMEDOUT)])
+            obj.send(b"A")
+    except Exception as ex:      # noqa  (a defect of the first step is the business of the plain rows)
+        ctx.inconclusive_case("could not cut the connection off first: %r" % (ex,))
+        return
+    if obj.cutoff is not True:
+        ctx.hit("after_cutoff_setup_did_not_cut_off")
+        return
+    ctx.hit("after_cutoff_%s_%s" % (op, cat))
+    fake.script("send" if op == "send" else "recv", [item])
+    nraised = len(fake.raised)
+    raised = result = None
+    try:
+        result = obj.send(b"B") if op == "send" else obj.receive()
+    except Exception as ex:      # noqa
+        raised = ex
+    ctx.event(len(fake.log))
+
+    def wit():
+        return dict(row, raised=repr(raised), result=repr(result), cutoff_after=obj.cutoff,
+                    socket_calls=[(o, r if not isinstance(r, bytes) else r.hex()) for (o, d, r) in fake.log])
+    key = "%s/%s/after-cutoff/%s:%s/" % (cls, op, cat, name)
+    if len(fake.raised) == nraised:
+        ctx.hit("after_cutoff_operation_did_not_reach_the_socket")      # (a transport may refuse to touch a dead socket)
+        ctx.check(raised is None or True, "ok")
+        return
+    injected = fake.raised[-1]
+    if cat == "other":
+        ctx.check(raised is injected, key + ("swallowed" if raised is None else "replaced"),
+                  "%s.%s on a connection already cut off (%s): error %s does not propagate to the caller unchanged" % (cls, op, how, name), wit)
+    elif cat == "loss":
+        ctx.check(raised is None and obj.cutoff is True and not result, key + "raises-or-uncuts",
+                  "%s.%s on a connection already cut off (%s): loss error %s raised / returned data / cleared cutoff" % (cls, op, how, name), wit)
+    elif cat == "block":
+        ctx.check(raised is None and not result and obj.cutoff is True, key + "state-changed",
+                  "%s.%s on a connection already cut off (%s): would-block %s raised / returned data / cleared cutoff" % (cls, op, how, name), wit)
 
 
 def stream_case(ctx, cls, op, via, prior, cat, item):
     """one table row on a stream transport"""
-    tls = cls.endswith("Tls")
+    tls = "Tls" in cls
     obj, fake = build(cls)
     name = item_name(item)
     row = {"class": cls, "operation": op, "via": via, "successful_operations_before": prior,
@@ -447,6 +502,19 @@ def run(ctx):
                 for prior in priors:
                     for cat, item in table(tls):
                         stream_case(ctx, cls, op, via, prior, cat, item)
+    for cls in ("ClientReconnectable", "ClientTlsReconnectable"):
+        for op in ("send", "recv"):
+            for via in ("direct", "service"):
+                for prior in priors[:2]:
+                    for cat, item in table("Tls" in cls):
+                        stream_case(ctx, cls, op, via, prior, cat, item)
+                        ctx.hit("rows_on_reconnectable_clients")
+    for cls in ("Client", "ClientTls", "Incomer", "IncomerTls", "ClientReconnectable"):
+        for how in ("recv-loss", "recv-eof", "send-loss"):
+            for op in ("send", "recv"):
+                for cat, item in table("Tls" in cls):
+                    if cat != "unjudged":
+                        after_cutoff_case(ctx, cls, how, op, cat, item)
     for cls in ("ClientTls", "IncomerTls"):
         for prior in priors:
             rows = [("block", WANT_READ), ("block", WANT_WRITE), ("loss", SSLE("eof"))]
@@ -489,3 +557,6 @@ def run(ctx):
                         ("gram_send_other", 25), ("gram_receive_other", 25)):
         ctx.floor(name, floor)
     ctx.floor("distinct_nontrivial", 800)
+    ctx.floor("rows_on_reconnectable_clients", 200)
+    ctx.floor("after_cutoff_send_other", 40)
+    ctx.floor("after_cutoff_recv_other", 40)
